@@ -220,6 +220,10 @@ func checkC01(c *Check) {
 	// ---- R9 regex acceptance independent of user groups
 	c.Rule("R9", "E6 sibling agreement", "regex tree and regex leaf reject a segment only when the expression did not match (nil sub-matches), never by comparing the number of sub-matches with the number of binds", 2)
 	checkRegexAcceptance(c)
+
+	// ---- R12 the route that is matched is the route that was written
+	c.Rule("R12", "shared with C11 (R2)", "inside groups the registered text is the group prefixes followed by the route's own text, byte for byte (no cleaning, joining or collapsing): a trailing or doubled slash is a segment of its own for the matcher", 3)
+	c.Share("C11", []string{"R2"}, 3)
 }
 
 func checkInsertion(c *Check, fn *ssa.Function, s ssa.CallInstruction, getter, ctor, style string) {
@@ -719,6 +723,26 @@ func checkMatchAllTree(c *Check) {
 			c.OK(key+":attempt-before-extend", p.Pos(M.Pos()), "the deeper match is attempted before the capture is extended (shortest capture first)", numInstrs(fn))
 		} else {
 			c.Bad(key+":attempt-before-extend", p.Pos(M.Pos()), "the capture is extended before the deeper match is attempted: shorter captures are skipped", path)
+		}
+	}
+	// the capture keeps growing while it can: after a failed attempt the walk is given up only where no further
+	// "/" follows or the capture limit is reached — not, say, where nothing follows the "/" (a trailing slash is
+	// an empty last segment that a leaf below may take)
+	if si, ok := strip(nextStep).(ssa.Instruction); ok && nextStep != nil {
+		noSlash := edgesWhere(fn, cCmp(token.EQL, idxCall, vConstInt(-1)), true)
+		limit := EdgeSet{}
+		for _, b := range fn.Blocks {
+			if iff, isIf := b.Instrs[len(b.Instrs)-1].(*ssa.If); isIf {
+				if derivesFrom(iff.Cond, vField(recv, "capture"), nil) {
+					limit[Edge{b, 0}] = true
+					limit[Edge{b, 1}] = true
+				}
+			}
+		}
+		if in, path := (Query{Fn: fn, Cut: union(noSlash, limit), Avoid: isInstr(si)}).After(M, falseVerdict(fn)); in != nil || len(noSlash) == 0 {
+			c.Bad(key+":extend-while-possible", p.Pos(M.Pos()), "after a failed attempt the match-all gives up although another \"/\" follows and the capture limit is not reached: longer captures (e.g. up to an empty last segment) are never tried", blockPath(path))
+		} else {
+			c.OK(key+":extend-while-possible", p.Pos(M.Pos()), "the walk ends only where no \"/\" follows or the capture limit is reached", numInstrs(fn))
 		}
 	}
 	// segment accumulation and bind on success only
